@@ -107,10 +107,10 @@ CHECKS = {
          "§3.5, §4 C40"),
  "C41": ("clisim", "exploration", "deterministic simulation of command histories through the real jj binary: seeded commands, file edits, commands at older operations, stale workspaces; observation through jj-lib; undo stack judged against the operation DAG",
          "Same histories; after `op restore X` the heads, local bookmarks, tags and working-copy pointers equal those of X's view; after the j-th consecutive undo they equal those of the j-th ancestor of the operation that was the head when the undos began; redo walks back. Undo/redo sequences are kept inside the current run of plain successful commands of the default workspace, where the documented stack is unambiguous. immutable_heads() = none() in these runs, so the permitted difference never arises.",
-         "op revert of older operations (a three-way view merge without equality oracle) is not judged; no file edits directly before undo/redo/op restore.",
+         "`op revert @` (the latest operation) is judged like an undo of it; op revert of older operations (a three-way view merge without equality oracle) is not judged; no file edits directly before undo/redo/op restore/op revert.",
          "§4 C41"),
  "C42": ("clisim", "exploration", "deterministic simulation of command histories through the real jj binary: seeded commands, file edits, commands at older operations, stale workspaces; observation through jj-lib; immutable set evaluated before, visibility after each rewriting command",
-         "Histories start with protected history (bookmark trunk; revset-aliases.immutable_heads() = present(trunk) | tags()) and aim half of their revision arguments at protected commits. Before each judged command (describe, abandon, rebase -r/-s/-b, squash [--from/--into], edit, new [--insert-before/--insert-after], commit, restore [--from/--into], duplicate, metaedit, parallelize, simplify-parents, split <file>, absorb, file chmod) the harness computes the ancestors of trunk/tags through jj-lib; afterwards every one of those commit ids must still be visible. Commands that move the bookmark or a tag themselves, operation-log commands and --at-op commands are not judged.",
+         "Histories start with protected history (bookmark trunk, sometimes tag v0; revset-aliases.immutable_heads() drawn per run from present(trunk) | tags(), tags() alone, present(trunk) alone) and aim half of their revision arguments at protected commits. Before each judged command (describe, abandon, rebase -r/-s/-b, squash [--from/--into], edit, new [--insert-before/--insert-after], commit, restore [--from/--into], duplicate, metaedit, parallelize, simplify-parents, split <file>, absorb, file chmod) the harness computes the ancestors of trunk/tags through jj-lib; afterwards every one of those commit ids must still be visible. Commands that move the bookmark or a tag themselves, operation-log commands and --at-op commands are not judged.",
          "Visibility of the same commit id is the criterion (a rewritten commit gets a new id); --ignore-immutable is never passed.",
          "§4 C42"),
  "C21": ("tablesim", "exploration", "deterministic simulation: seeded baton scheduler over the table store's file-system primitives, crash and ineffective-lock faults, key/value reference model",
